@@ -92,7 +92,7 @@ func (s *sched) step(t *sthread) {
 	var ev *vshim.Ev
 	select {
 	case ev = <-t.yield:
-	case <-time.After(8 * time.Second):
+	case <-time.After(20 * time.Second):
 		// the thread neither finished its action nor reached another scheduling point: it is blocked on something
 		// the scheduler does not control (a lock or channel that is not one of the shimmed primitives) while every
 		// other thread is suspended - nobody can ever release it
@@ -1186,7 +1186,7 @@ func explore(p *program, strategy int, schedSeed uint64, budget int, keepTrace b
 		}()
 		select {
 		case <-fin:
-		case <-time.After(4 * time.Second):
+		case <-time.After(10 * time.Second):
 			out.problem = "HANG: the single-threaded call `" + l + "` of the prefill did not return (self-deadlock)"
 			for len(out.preRes) < len(p.prefill) {
 				out.preRes = append(out.preRes, "?")
